@@ -95,6 +95,44 @@ func c19(c *core.Check) {
 
 	r1 := c.Rule("R1", "every integer / and % of css/counters has a divisor proven non-zero, and every % whose result indexes a list has a dividend proven non-negative (Go's % keeps the sign of the dividend)", 12)
 	divisionRule(c, r1, inPkgs("css/counters"))
+	// the sign is accounted for in the padding exactly when it is written: both steps test isNegative && useNegative
+	if rvf := p.Lookup("css/counters.CounterStyle.renderValue"); rvf != nil {
+		if body := p.Body(rvf); body != nil {
+			nNeg := 0
+			ast.Inspect(body, func(n ast.Node) bool {
+				ifs, ok := n.(*ast.IfStmt)
+				if !ok {
+					return true
+				}
+				txt := p.NodeText(ifs.Cond)
+				if strings.Contains(p.NodeText(ifs.Body), "useNegative =") {
+					return true // the block that decides useNegative
+				}
+				if strings.Contains(txt, "isNegative") {
+					nNeg++
+					r1.Cond(strings.Contains(txt, "useNegative"), "renderValue | "+txt+" | sign condition", p.Pos(ifs.Pos()), "tests isNegative together with useNegative", "the sign is taken into account for a negative value even when the system does not write signs (cyclic, fixed): padding and sign disagree")
+				}
+				return true
+			})
+			if nNeg < 2 {
+				r1.Unknown("renderValue | sign conditions", p.Pos(rvf.Pos()), fmt.Sprintf("%d conditions on isNegative found, 2 expected (padding, sign)", nNeg))
+			}
+		}
+	}
+	// a negative remainder must be brought back by adding the modulus (floor modulo), never mirrored by Abs
+	nAbs := 0
+	for _, fn := range p.FuncsOfPkg("css/counters") {
+		core.Instrs(fn, func(in ssa.Instruction) {
+			call, ok := in.(*ssa.Call)
+			if !ok || call.Call.StaticCallee() == nil || call.Call.StaticCallee().Name() != "Abs" || len(call.Call.Args) != 1 {
+				return
+			}
+			nAbs++
+			rem, isRem := call.Call.Args[0].(*ssa.BinOp)
+			bad := isRem && rem.Op == token.REM
+			r1.Cond(!bad, core.FuncName(fn)+" | "+p.StmtTextAt(fn, call.Pos())+" | Abs", p.Pos(call.Pos()), "Abs is applied before the remainder is taken (or not to a remainder)", "Abs is applied to a remainder: for a negative dividend this mirrors the cycle (-1 % 3 gives 1 instead of 2) instead of continuing it")
+		})
+	}
 	if n := divLoopRule(c, r1, inPkgs("css/counters")); n < 2 {
 		r1.Unknown("division-progress loops", "-", fmt.Sprintf("%d digit-extraction loops found in css/counters, 2 expected (alphabetic, numeric)", n))
 	}
